@@ -456,6 +456,11 @@ func (fr *frame) callContract(callee *ssa.Function, ct *Contract, args []Value, 
 				fr.specError(c, fmt.Errorf("at call to %s: %v", name, err))
 				continue
 			}
+			if hasTag(c, "ghost") {
+				fx.note("ghost model clause assumed at calls of %s: %s", name, clauseName(c))
+			} else if hasTag(c, "assumed") {
+				fx.note("ASSUMED without proof (clause tagged assumed) at calls of %s: %s", name, clauseName(c))
+			}
 			fr.assume(t)
 		}
 	}
